@@ -13,6 +13,11 @@ import (
 	"encoding/pem"
 	"fmt"
 	"google.golang.org/protobuf/reflect/protoreflect"
+	"os"
+	"path/filepath"
+	"verifharness/fx"
+	"verifharness/kmfx"
+	"verifharness/rpcli"
 
 	"github.com/google/gce-tcb-verifier/cmd/output"
 	"github.com/google/gce-tcb-verifier/gcetcbendorsement"
@@ -172,6 +177,7 @@ func main() {
 		}
 	}
 	tdxJobs(r, ctx, &jobs, poison)
+	cliInPlace(r)
 	r.ParallelFor(len(jobs), func(i int) { jobs[i]() })
 	r.Finish()
 }
@@ -405,6 +411,120 @@ func tdxJobs(r *mc.Run, ctx context.Context, jobs *[]func(), poison *epb.VMLaunc
 					}
 				}
 			}
+		}
+	}
+}
+
+// cliInPlace runs the policy sub-commands over the real file system the way an in-place refresh does
+// (--out names the file given as --base): whatever the derivation decides, a base policy that was
+// not to be overwritten is still there afterwards, byte for byte, when the command fails; and when it
+// succeeds the file holds a policy in which every value the base had set survives.
+func cliInPlace(r *mc.Run) {
+	if !rpcli.Available {
+		r.Degraded("in-process CLI (overlay export of the backend key did not build)")
+		return
+	}
+	dir := filepath.Join(kmfx.ScratchRoot(), "c17-cli")
+	os.MkdirAll(dir, 0o755)
+	golden := &epb.VMGoldenMeasurement{
+		SevSnp: &epb.VMSevSnp{Svn: 5, Policy: endorsedPolicy, Measurements: map[uint32][]byte{1: m1, 2: m2}},
+		Tdx:    &epb.VMTdx{Measurements: []*epb.VMTdx_Measurement{{RamGib: 0, Mrtd: att.Meas(0xa0)}, {RamGib: 16, Mrtd: att.Meas(0xa1)}}}}
+	payload, _ := proto.Marshal(golden)
+	endBytes, _ := proto.Marshal(&epb.VMLaunchEndorsement{SerializedUefiGolden: payload})
+	endPath := filepath.Join(dir, "endorsement.binarypb")
+	os.WriteFile(endPath, endBytes, 0o644)
+	sevBases := map[string]*cpb.Policy{
+		"conflicting-measurement":  {Policy: endorsedPolicy, Measurement: att.Meas(0x99), MinimumVersion: "1.2"},
+		"conflicting-guest-policy": {Policy: 0x30000, MinimumVersion: "1.2"},
+		"compatible":               {Policy: endorsedPolicy, MinimumVersion: "1.2", ReportData: bytes.Repeat([]byte{7}, 64)},
+	}
+	n := 0
+	for bn, base := range sevBases {
+		for _, ow := range []bool{false, true} {
+			n++
+			bn, base, ow := bn, base, ow
+			id := fmt.Sprintf("cli sev policy in-place base=[%s] overwrite=%v", bn, ow)
+			r.Case(id, func() string {
+				bp := filepath.Join(dir, fmt.Sprintf("sev-base-%d.binarypb", n))
+				before, _ := proto.Marshal(base)
+				os.WriteFile(bp, before, 0o644)
+				args := []string{"sev", "--base=" + bp, "--launch_vmsas=1", "policy", endPath, "--out=" + bp, "--outform=bin"}
+				if ow {
+					args = append([]string{"sev", "--overwrite"}, args[1:]...)
+				}
+				res := rpcli.RunOS(fx.T0, nil, args...)
+				r.Eval()
+				r.Validated()
+				after, _ := os.ReadFile(bp)
+				if res.Panicked != nil {
+					r.Violation("cli/panic", id, fmt.Sprintf("sev policy panicked: %v", res.Panicked), nil)
+					return "panic"
+				}
+				if res.Err != nil {
+					if !bytes.Equal(after, before) {
+						r.Violation("cli/base-file-changed-by-a-failed-derivation", id, fmt.Sprintf("sev policy failed (%v) and the caller's base policy file went from %d to %d bytes", res.Err, len(before), len(after)), nil)
+					}
+					r.Outcome("cli:refused")
+					return "refused"
+				}
+				got := &cpb.Policy{}
+				if err := proto.Unmarshal(after, got); err != nil {
+					r.Violation("cli/result-unparseable", id, "the policy written in place does not parse: "+err.Error(), nil)
+					return "unparseable"
+				}
+				if !ow && (base.Policy != 0 && got.Policy != base.Policy || len(base.Measurement) != 0 && !bytes.Equal(got.Measurement, base.Measurement)) {
+					r.Violation("cli/base-value-replaced-without-overwrite", id, "a value set in the base policy was replaced without --overwrite", nil)
+				}
+				r.Nontrivial(id)
+				r.Outcome("cli:derived")
+				return "derived"
+			})
+		}
+	}
+	tdxBases := map[string]*tcpb.Policy{
+		"allow-list-set": {TdQuoteBodyPolicy: &tcpb.TDQuoteBodyPolicy{AnyMrTd: [][]byte{att.Meas(0xb0)}}},
+		"other-fields":   {HeaderPolicy: &tcpb.HeaderPolicy{MinimumQeSvn: 3}},
+	}
+	for bn, base := range tdxBases {
+		for _, ow := range []bool{false, true} {
+			n++
+			bn, base, ow := bn, base, ow
+			id := fmt.Sprintf("cli tdx policy in-place base=[%s] overwrite=%v", bn, ow)
+			r.Case(id, func() string {
+				bp := filepath.Join(dir, fmt.Sprintf("tdx-base-%d.binarypb", n))
+				before, _ := proto.Marshal(base)
+				os.WriteFile(bp, before, 0o644)
+				args := []string{"tdx", "--base=" + bp, "policy", endPath, "--out=" + bp, "--outform=bin"}
+				if ow {
+					args = append([]string{"tdx", "--overwrite"}, args[1:]...)
+				}
+				res := rpcli.RunOS(fx.T0, nil, args...)
+				r.Eval()
+				r.Validated()
+				after, _ := os.ReadFile(bp)
+				if res.Panicked != nil {
+					r.Violation("cli/panic", id, fmt.Sprintf("tdx policy panicked: %v", res.Panicked), nil)
+					return "panic"
+				}
+				if res.Err != nil {
+					if !bytes.Equal(after, before) {
+						r.Violation("cli/base-file-changed-by-a-failed-derivation", id, fmt.Sprintf("tdx policy failed (%v) and the caller's base policy file went from %d to %d bytes", res.Err, len(before), len(after)), nil)
+					}
+					r.Outcome("cli:refused")
+					return "refused"
+				}
+				got := &tcpb.Policy{}
+				if err := proto.Unmarshal(after, got); err != nil {
+					r.Violation("cli/result-unparseable", id, "the policy written in place does not parse: "+err.Error(), nil)
+					return "unparseable"
+				}
+				if bl := base.GetTdQuoteBodyPolicy().GetAnyMrTd(); !ow && bl != nil && !eqKeys(got.GetTdQuoteBodyPolicy().GetAnyMrTd(), bl) {
+					r.Violation("cli/base-value-replaced-without-overwrite", id, "the MRTD allow-list of the base policy was replaced without --overwrite", nil)
+				}
+				r.Nontrivial(id)
+				r.Outcome("cli:derived")
+				return "derived"
+			})
 		}
 	}
 }
